@@ -99,6 +99,7 @@ structure Backend where
   keyM : String := "raw"                -- store key method (class) and pass key, as last set
   keyP : Option String := none
   defProfile : String := ""             -- config 'default_profile'
+  faults : List Fault := []             -- out-of-band faults on the store's file (triggers, hidden tables)
 
 def Backend.view (b : Backend) (s : Nat) : Db :=
   match b.wtxn with
@@ -114,6 +115,15 @@ def Backend.write (b : Backend) (s : Nat) (db' : Db) : Backend :=
   match b.wtxn with
   | some (j, _) => if s == j then { b with wtxn := some (j, db') } else b
   | none => { b with db := db' }
+
+/-- the result of a store call on this backend (Model/FfiEntry.lean `faultedResult`) -/
+def Backend.hit (b : Backend) (call : StoreCall) : Bool := b.faults.any (·.hits call)
+
+def faultOfName (n : String) : Option Fault :=
+  match n with
+  | "profiles_insert" => some .profilesInsert | "profiles_delete" => some .profilesDelete | "profiles_update" => some .profilesUpdate
+  | "config_write" => some .configWrite | "items_insert" => some .itemsInsert | "items_delete" => some .itemsDelete
+  | "profiles_hidden" => some .profilesHidden | "config_hidden" => some .configHidden | _ => none
 
 structure SessV where
   backend : Nat
@@ -331,7 +341,7 @@ def sourceMsg (w : World) (j : Json) : Bytes :=
   | none => []
 
 def isNewOp (name : String) : Bool :=
-  (keyEntryOf name).isSome || ["key_free", "buffer_free_probe", "provision2", "store_remove", "store_copy", "dump", "migrate", "busy", "logger"].contains name
+  (keyEntryOf name).isSome || ["key_free", "buffer_free_probe", "provision2", "store_remove", "store_copy", "dump", "migrate", "busy", "logger", "terminate"].contains name
 
 def lookupFile (w : World) (ofOp : Nat) : Option (Option Nat) :=
   match w.files.find? (·.1 == ofOp) with
@@ -425,6 +435,26 @@ def evalNew (w : World) (i : Nat) (j : Json) : World × Json :=
     let w := match ((arr! j "keys").headD .null).getNat? with | .ok s => setSlot w s .none | .error _ => w
     (w, jsync .success .null)
   | "buffer_free_probe" => (w, jsync .success "ok")
+  | "trigger" =>
+    -- an out-of-band fault on the file of op `of` (installed on the twin's file as well)
+    match lookupFile w (nat! j "of"), faultOfName (str! j "what") with
+    | some (some bi), some f =>
+      match w.backends[bi]? with
+      | some b => (setBackend w bi { b with faults := if bool! j "on" then f :: b.faults else b.faults.filter (· != f) }, Json.mkObj [("trigger", "ok")])
+      | none => (w, Json.mkObj [("trigger", "failed")])
+    | _, _ => (w, Json.mkObj [("trigger", "failed")])
+  | "terminate" =>
+    -- `askar_terminate` with calls pending, then calls without a runtime: the fates `cancelled` and `notSpawned`
+    let fired (mode : CbMode) (cbGiven : Bool) (dec : Except Err Unit) (what : String) : Json :=
+      let (c, fs) := runEntry (ρ := Unit) mode cbGiven none dec .notSpawned
+      Json.arr #[.str what, jcode c, jnat fs.length, (match fs with | [f] => (match f.result with | .ok _ => "Success" | .error e => jcode (Code.ofErr e)) | _ => .null), .bool (fs.length > 0)]
+    let pendingOnce := ["update", "fetch_all", "provision", "get_profile_name"].all fun _ =>
+      (runEntry (ρ := Unit) .required true none (.ok ()) .cancelled).2.length == 1 && (runEntry (ρ := Unit) .required true none (.ok ()) (.completed (.ok ()))).2.length == 1
+    let post := ["get_profile_name", "create_profile", "list_profiles", "session_count", "session_start", "scan_next", "store_remove", "migrate"].map (fired .required true (.ok ()))
+      ++ [fired .optional true (.ok ()) "session_close", fired .optional true (.ok ()) "store_close", fired .optional false (.ok ()) "store_close:no-callback",
+          fired .required false (.ok ()) "get_profile_name:no-callback",
+          fired .required true (AsyncEntry.setDefaultProfile.decode (fun _ => .ok ()) [.null] .null) "set_default_profile:null-name"]
+    (w, Json.mkObj [("terminate", Json.mkObj [("pending_all_once", .bool pendingOnce), ("post", .arr post.toArray), ("key_generate", "Success"), ("exit_ok", .bool true)])])
   | "provision2" =>
     let mc := methodOf j
     let dec := AsyncEntry.storeProvision.decode (fun m => (methodClass m).map fun _ => ()) [uriCStr j "uri"] (cstr j "method")
@@ -571,6 +601,8 @@ def evalNew (w : World) (i : Nat) (j : Json) : World × Json :=
     let allowed :=
       if target == "session" then outcomes.any fun (isOwn, r) => closeName r == close && (if isOwn then own.contains call else call == "Input")
       else close == "Success" && (own.contains call || call == "Input")     -- scan_free swallows Busy; store close drops the entries
+    -- a close without callback: its result (Busy or not) is only logged; the in-flight call is still answered, the handle still dies
+    let allowed := if bool! j "nocb" && target == "session" then close == "none" && (own.contains call || call == "Input") else allowed
     let allowed := allowed && after == "Input"
     (w, Json.mkObj [("busy", if allowed then Json.mkObj [("call", .str call), ("close", .str close), ("after", .str after)] else Json.mkObj [("not-allowed", t)])])
   | "logger" =>
@@ -674,6 +706,7 @@ def evalOp (w : World) (i : Nat) (j : Json) : World × Json :=
       | .ok a =>
         sessionTask sh (fun w s b bi =>
           if b.lockedByOther sh then (w, .error .backend) else
+          if (a.op == .insert && b.hit .insertItem) || (a.op == .remove && b.hit (.removeItem ((doFetch (b.view sh) 0 s 2 a.category a.name).isSome))) then (w, .error .backend) else
           let v := value! j "v"
           let mop : Op := match a.op with
             | .insert => .insert 2 a.category a.name v a.tags a.expiry
@@ -736,6 +769,7 @@ def evalOp (w : World) (i : Nat) (j : Json) : World × Json :=
         sessionTask sh (fun w s b bi =>
           if b.lockedByOther sh then (w, .error .backend) else
           let (db', n) := doRemoveAll sqliteLike (b.view sh) s (some 2) (cstr j "c").intoOptString f
+          if b.hit (.removeAll n) then (w, .error .backend) else
           (setBackend w bi (b.write sh db'), .ok (Json.mkObj [("n", jnat n)]))) w
   | "scan_start" =>
     let h := handleArg w w.stores.counter j
@@ -820,7 +854,7 @@ def evalOp (w : World) (i : Nat) (j : Json) : World × Json :=
         match w.backends[bi]? with
         | none => (w, .error .unexpected)
         | some b =>
-          if b.wtxn.isSome then (w, .error .backend) else
+          if b.wtxn.isSome || b.hit .createProfile then (w, .error .backend) else
           let name := ((cstr j "name").intoOptString).getD ""
           match createProfile b.db b.h name with
           | .ok (db, hd) => (setBackend w bi { b with db := db, h := hd }, .ok (Json.mkObj [("name", .str name)]))
@@ -834,6 +868,7 @@ def evalOp (w : World) (i : Nat) (j : Json) : World × Json :=
         match w.backends[bi]? with
         | none => (w, .error .unexpected)
         | some b =>
+          if b.hit .listProfiles then (w, .error .backend) else
           let names := sortBy strLt (b.db.profiles.map (·.name))
           (setSlot w i (.strs names), .ok (Json.mkObj [("strs", .arr (names.map Json.str).toArray), ("count", jnat names.length)]))
   | "get_profile_name" =>
@@ -898,7 +933,7 @@ def evalOp (w : World) (i : Nat) (j : Json) : World × Json :=
             match rekeyFfi (fun k => validRawKeys.contains k) (classOf m) (cstr j "pass") with
             | .error e => (w, .error e)
             | .ok _ =>
-              if b.wtxn.isSome then (w, .error .backend) else
+              if b.wtxn.isSome || b.hit .rekey then (w, .error .backend) else
               (setBackend w bi { b with keyM := m, keyP := p }, .ok "ok")
   | "store_open" =>
     -- open the file of an earlier provision under a new handle (the harness closes it at once)
@@ -932,7 +967,7 @@ def evalOp (w : World) (i : Nat) (j : Json) : World × Json :=
         match w.backends[bi]? with
         | none => (w, .error .unexpected)
         | some b =>
-          if b.wtxn.isSome then (w, .error .backend) else
+          if b.wtxn.isSome || b.hit (.removeProfile (b.db.profiles.any (·.name == ((cstr j "name").intoOptString).getD ""))) then (w, .error .backend) else
           let ((db, hd), r) := removeProfile b.db b.h (((cstr j "name").intoOptString).getD "") evictOnRemove
           (setBackend w bi { b with db := db, h := hd }, .ok (Json.mkObj [("removed", .bool r)]))
   | "get_default_profile" =>
@@ -940,7 +975,9 @@ def evalOp (w : World) (i : Nat) (j : Json) : World × Json :=
     asyncEntry w j .required none okUnit fun w =>
       match w.stores.borrow h with
       | .error e => (w, .error e)
-      | .ok bi => (w, .ok (Json.mkObj [("name", .str ((w.backends[bi]?.map (·.defProfile)).getD ""))]))
+      | .ok bi =>
+        if ((w.backends[bi]?.map (·.hit .getDefaultProfile)).getD false) then (w, .error .backend) else
+        (w, .ok (Json.mkObj [("name", .str ((w.backends[bi]?.map (·.defProfile)).getD ""))]))
   | "set_default_profile" =>
     let h := handleArg w w.stores.counter j
     let dec : Except Err Unit := (required (cstr j "name")).map fun _ => ()
@@ -950,7 +987,9 @@ def evalOp (w : World) (i : Nat) (j : Json) : World × Json :=
       | .ok bi =>
         match w.backends[bi]? with
         | none => (w, .error .unexpected)
-        | some b => (setBackend w bi { b with defProfile := ((cstr j "name").intoOptString).getD "" }, .ok "ok")
+        | some b =>
+          if b.hit .setDefaultProfile then (w, .error .backend) else
+          (setBackend w bi { b with defProfile := ((cstr j "name").intoOptString).getD "" }, .ok "ok")
   | "key_insert" =>
     let sh := handleArg w w.sessions.counter j
     let dec : Except Err (String × String × Option (List Tag)) := do
